@@ -138,6 +138,10 @@ pub fn history(h: u8, players: &[Option<u8>; 4], v: (u8, u8)) -> Option<Vec<Fram
 	let items = [0u8, 1, 2, 3, 0, 2, 1, 0, 3, 1];
 	// before 2.2 a frame only exists through its first Pre event, so some character must be present
 	let droppable = !lone || v >= (2, 2);
+	if h == 9 {
+		// long game: more than 2^16 frame rows (sizes and offsets that no longer fit 16 bits), everybody present, no items
+		return Some((0..LONG_ROWS).map(|r| FrameSpec { id: -123 + r as i32, present: chars.clone(), items: 0 }).collect());
+	}
 	let (ids, absent): (&[i32; ROWS], Vec<((u8, bool), Vec<usize>)>) = match h {
 		0 => (&straight, vec![]),
 		1 if droppable => (&straight, vec![(ics_leader.unwrap_or(chars[0]), vec![2])]),
@@ -256,6 +260,18 @@ pub const PORTS: [[Option<u8>; 4]; 5] = [
 	[Some(2), None, None, Some(ICS)],
 ];
 pub const GECKOS: [Option<(u8, u16)>; 4] = [None, Some((1, 100)), Some((2, 512)), Some((3, 7))];
+
+pub const LONG_ROWS: usize = 70_000;
+
+/// A few long games (history 9: 70000 frames), for the properties where a 16-bit boundary in the frame count can matter.
+pub fn long_candidates() -> Vec<Spec> {
+	let mut out = vec![];
+	for (v, players) in [((0u8, 1u8), PORTS[0]), ((2, 0), PORTS[1]), ((3, 16), PORTS[0])] {
+		let frames = history(9, &players, v).unwrap();
+		out.push(Spec { ver: (v.0, v.1, 0), players, hist: 9, frames, gecko: None, end: EndKind::Single, meta: true, seed: 900_000 + out.len() as u64 });
+	}
+	out
+}
 
 /// The structured candidate set (about 12k cases), in a fixed order.
 pub fn candidates() -> Vec<Spec> {
